@@ -79,6 +79,32 @@ def fam_args(tier, rng):
                 one["sid"] = c["id"]
             main += [c, b.print(lit("$", "after"), idx("AR", t, [lit("I", 1)]), idx("AR", t, [lit("I", 0)]))]
             out.append({"fam": "args-idxfcall:%s/%s" % (t, host), "prog": prog(main, subs)})
+    # the subscript of a by-reference element calls a function that has a by-reference parameter itself, and another
+    # by-reference argument follows: every value comes back to its own place
+    for t in T5:
+        for host in ("sub", "fun"):
+            b = B()
+            kv = var("KK", "I")
+            gi = fcall("GI", "I", [kv], 0)
+            arg1 = idx("AR", t, [gi])
+            arg2 = var("BB", t)
+            x, y = var("X", t), var("Y", t)
+            pbody = [b.print(lit("$", "in"), x, y), b.let(x, v1(t)), b.let(y, bump(t, v1(t)))]
+            gbody = [b.let(var("GI", "I"), var("N", "I")), b.let(var("N", "I"), bin_("+", var("N", "I"), lit("I", 0)))]
+            subs = [fun("GI", "I", [("N", "I")], gbody)]
+            main = [b.dim("AR", t, [{"lo": lit("I", 0), "hi": lit("I", 2), "nolo": False}]), b.let(kv, lit("I", 1)),
+                    b.let(idx("AR", t, [lit("I", 1)]), v0(t)), b.let(arg2, v0(t))]
+            if host == "sub":
+                c = b.call("P2", [arg1, arg2])
+                subs.append(sub("P2", [("X", t), ("Y", t)], pbody))
+            else:
+                fc = fcall("F2", t, [arg1, arg2], 0)
+                c = b.let(var("R", t), fc)
+                fc["sid"] = c["id"]
+                subs.append(fun("F2", t, [("X", t), ("Y", t)], pbody + [b.let(var("F2", t), v0(t))]))
+            gi["sid"] = c["id"]
+            main += [c, b.print(lit("$", "after"), idx("AR", t, [lit("I", 1)]), arg2, kv)]
+            out.append({"fam": "args-idxfcall-byref:%s/%s" % (t, host), "prog": prog(main, subs)})
     # the same variable / element in two by-reference positions: both are copied in, and written back left to
     # right, so the right parameter's final value is what the caller sees
     for t in T5:
@@ -395,7 +421,47 @@ def fam_errors(tier, rng):
     return out
 
 
-FAMILIES = [fam_args, fam_locals, fam_function, fam_static, fam_shared, fam_nested, fam_errors]
+def fam_exit(tier, rng):
+    """EXIT SUB / EXIT FUNCTION from inside one or two FOR loops (with their own limits), called from a FOR of the
+    caller: the caller's loop goes on with ITS counter, limit and step"""
+    out = []
+    for kind in ("sub", "fun"):
+        for depth in (1, 2):
+            for caller in ("for+", "for-", "none"):
+                for via in ("plain", "ifline"):
+                    b = B()
+                    k, j = var("K", "I"), var("J", "I")
+                    ex = b.exit("sub" if kind == "sub" else "function")
+                    cond = bin_("=", k, lit("I", 20))
+                    leave = b.if_([(cond, [b.print(lit("$", "leave"), k), ex])])
+                    if via == "ifline":
+                        leave["oneline"] = True
+                    inner = [leave, b.print(lit("$", "k"), k)]
+                    if depth == 2:
+                        inner = [b.for_(j, lit("I", 5), lit("I", 6), None, inner, hasstep=False)]
+                    body = [b.for_(k, lit("I", 10), lit("I", 50), lit("I", 10), inner), b.print(lit("$", "never"))]
+                    i = var("I", "I")
+                    if kind == "sub":
+                        call = b.call("P", [])
+                        subs = [sub("P", [], body)]
+                    else:
+                        fc = fcall("F", "I", [], 0)
+                        call = b.let(var("R", "I"), fc)
+                        fc["sid"] = call["id"]
+                        subs = [fun("F", "I", [], [b.let(var("F", "I"), lit("I", 7))] + body)]
+                    cb = [b.print(lit("$", "i"), i), call, b.print(lit("$", "back"), i)]
+                    if caller == "for+":
+                        main = [b.for_(i, lit("I", 1), lit("I", 3), None, cb, hasstep=False)]
+                    elif caller == "for-":
+                        main = [b.for_(i, lit("I", 3), lit("I", 1), un("neg", lit("I", 1)), cb)]
+                    else:
+                        main = cb
+                    main.append(b.print(lit("$", "end"), i))
+                    out.append({"fam": "exit:%s/%d/%s/%s" % (kind, depth, caller, via), "prog": prog(main, subs)})
+    return out
+
+
+FAMILIES = [fam_args, fam_locals, fam_function, fam_static, fam_shared, fam_nested, fam_errors, fam_exit]
 
 
 def cases(tier, seed):
